@@ -108,7 +108,8 @@ class Stepwise:
             return a
 
         def f(*args, **kw):
-            if threading.current_thread() is not threading.main_thread():
+            th = threading.current_thread()
+            if th is not threading.main_thread() and not getattr(th, "no_yield", False):
                 self._s.yield_()
             return a(*args, **kw)
         return f
